@@ -53,6 +53,16 @@ def check_case(case) -> Obs:
     q = case["q"]
     world = World([spec], device=case["device"], grid=q, wl_kwargs={"max_volume": 1e9})
     lw = world.labs[0]
+    # a second labware built from the SAME float64 array object, and the array itself, must stay untouched
+    shared = np.array([spec["init"]] if spec["kind"] == "trough" else spec["init"], dtype=float)
+    shared_copy = shared.copy()
+    if spec["kind"] == "plate":
+        import robotools
+
+        world.labs[0] = lw = robotools.Labware(spec["name"], spec["rows"], spec["cols"], min_volume=spec["min"], max_volume=spec["max"], initial_volumes=shared)
+        twin = robotools.Labware("Twin", spec["rows"], spec["cols"], min_volume=spec["min"], max_volume=spec["max"], initial_volumes=shared)
+    else:
+        twin = None
     model = world.models[0]
     obs.cls("kind:" + spec["kind"], "stream:" + ("dyadic" if q else "float"))
     accepted = 0
@@ -112,5 +122,15 @@ def check_case(case) -> Obs:
                 interesting = True
                 obs.cls("virtual-row-alias")
         obs.cls("via:" + conc["op"])
+    if twin is not None and not obs.violations:
+        if not np.array_equal(shared, shared_copy):
+            obs.bad("C04/caller-array-mutated", f"the array passed as initial_volumes was changed by operations on the labware: {shared_copy.tolist()} -> {shared.tolist()}")
+        elif not np.array_equal(twin.volumes, shared_copy):
+            obs.bad("C04/labware-aliased", f"a second labware built from the same initial_volumes array changed without being addressed: {twin.volumes.tolist()}")
+        else:
+            before = lw.volumes
+            shared += 1.0
+            if not np.array_equal(lw.volumes, before):
+                obs.bad("C04/state-aliases-caller-array", "changing the caller's initial_volumes array after construction changed Labware.volumes")
     obs.nontrivial = accepted >= 2 and interesting
     return obs
